@@ -121,12 +121,34 @@ type groundTruth struct {
 	silences       []*gtSilence
 	modes          []gtModeChange
 	reloads        []time.Duration // reloads and restarts
+	restarts       []time.Duration // restarts only (begin and end instants): the new process knows no alerts
+	procStarts     []time.Duration // process starts; the provider's alert GC ticks every alertGC after each
+	alertGC        time.Duration
 	horizon        time.Duration
 	inhibitedBy    map[string][]string // target alert -> source alerts (same equal labels) per the configured rule
 }
 
 func newGT(rt time.Duration) *groundTruth {
 	return &groundTruth{resolveTimeout: rt, alerts: map[string]*gtAlert{}}
+}
+
+// alertGCTickIn: did the alert provider of the process then running collect resolved alerts in [from, to]?
+func (g *groundTruth) alertGCTickIn(from, to time.Duration) bool {
+	if g.alertGC <= 0 {
+		return true
+	}
+	for i, ps := range g.procStarts {
+		until := g.horizon + time.Hour
+		if i+1 < len(g.procStarts) {
+			until = g.procStarts[i+1]
+		}
+		for tk := ps + g.alertGC; tk <= to+time.Millisecond && tk < until; tk += g.alertGC {
+			if tk >= from-time.Millisecond {
+				return true
+			}
+		}
+	}
+	return false
 }
 
 // firing computes the intervals in which the alert is firing according to what was posted.
@@ -468,28 +490,39 @@ func monitorC05(g *groundTruth, c monCfg, attempts []fAttempt, gkOf func(group s
 				if !told {
 					continue
 				}
-				// premise on [end, end+B]: not re-fired, not silenced, accepting, no reload
-				if i+1 < len(fs) && fs[i+1].from <= end+B {
-					continue
-				}
-				w := span{end, end + B}
-				prem := spans{w}.intersect(g.silenced(name).complement(g.horizon)).intersect(g.accepting(c.receiver + "/" + key)).splitAt(g.reloads)
-				if len(prem) != 1 || prem[0] != w {
-					continue
-				}
-				// also no reload between the telling and the end (a new dispatcher only knows what the provider still holds)
-				bad := false
+				// A reload replaces the dispatcher; the new one learns the alert from the provider (which keeps a
+				// resolved alert until its next GC tick) and the log still says "told firing", so the resolution is
+				// still owed, B after the reload at the latest. A restart is different: the new process knows no alert.
+				limit := end + B
+				excused := false
 				for _, r := range g.reloads {
-					if r >= f.from && r <= end+B {
-						bad = true
+					if r > end && r <= limit {
+						if g.alertGCTickIn(end, r) {
+							excused = true // the provider had already dropped the resolved alert
+						}
+						limit = r + B
 					}
 				}
-				if bad {
+				for _, r := range g.restarts {
+					if r >= f.from && r <= limit {
+						excused = true
+					}
+				}
+				if excused || limit >= g.horizon {
+					continue
+				}
+				// premise on [end, limit]: not re-fired, not silenced, accepting
+				if i+1 < len(fs) && fs[i+1].from <= limit {
+					continue
+				}
+				w := span{end, limit}
+				prem := spans{w}.intersect(g.silenced(name).complement(g.horizon)).intersect(g.accepting(c.receiver + "/" + key))
+				if len(prem) != 1 || prem[0] != w {
 					continue
 				}
 				got := false
 				for _, d := range ds {
-					if d.At >= end && d.At <= end+B {
+					if d.At >= end && d.At <= limit {
 						if p, fi := d.lists(name); p && !fi {
 							got = true
 						}
@@ -497,7 +530,7 @@ func monitorC05(g *groundTruth, c monCfg, attempts []fAttempt, gkOf func(group s
 				}
 				if !got {
 					return &violation{"resolution-not-reported-within-bound",
-						fmt.Sprintf("alert %s was notified firing to %s/%s, ended at %v, stayed resolved/unsuppressed with the integration accepting, but no notification listed it resolved by %v; deliveries: %s", name, c.receiver, key, end, end+B, fmtAttempts(ds))}
+						fmt.Sprintf("alert %s was notified firing to %s/%s, ended at %v, stayed resolved/unsuppressed with the integration accepting (reloads at %v), but no notification listed it resolved by %v; deliveries: %s", name, c.receiver, key, end, g.reloads, limit, fmtAttempts(ds))}
 				}
 			}
 		}
